@@ -22,6 +22,16 @@ pthread scheduling.
 
 The full statement `∀ v, Reach v f n s → inflight s ≤ f` is FALSE of the code as pinned
 (`if_variant_exceeds`); it is proved under the explicit hypothesis `v = whileWait`.
+
+EVERY SIGNALLING DISCIPLINE (section `G`, LTS `Dsh/FanG.lean`: each worker's wake-up call inside or after the
+critical section, `pthread_cond_signal` | `pthread_cond_broadcast` no distinction; `Fan` is its sub-LTS,
+`Dsh/FanGEmbed.lean`):
+
+clause                                   | pinned discipline          | every discipline
+-----------------------------------------|----------------------------|------------------------------------------
+in flight ≤ fanout (`while`)             | `inflight_le_fanout`, `threadcount_le_fanout` | `G.inflight_le_fanout`, `G.threadcount_le_fanout`
+`if` construct breaks it                 | `if_variant_exceeds` (one spurious wake-up), `bound_without_spurious` (only then) | `G.if_after_exceeds_without_spurious` (a LATE wake-up call does it with NO spurious wake-up: `bound_without_spurious` is a fact about the pinned discipline only), `G.while_refuses_late_witness`
+next target started without waiting for anything but the dispatcher | `work_conserving`, `waits_only_when_full`, `room_enabled` | `G.work_conserving` (fanout slots accounted for by counted / locked / RELEASED workers), `G.parked_with_room_has_waker`, `G.waits_only_when_full`, `G.room_enabled`
 -/
 namespace PdshVerif.Props.C04
 section Pinned
